@@ -29,9 +29,9 @@ var plans = map[string]*plan{
 // this is extra reach for defects that need a configuration AND an input class at once.
 func alsoIn(p *plan, cfgs ...string) {
 	for _, c := range cfgs {
-		p.stages = append(p.stages, stage{config: c, optional: true})
+		p.stages = append(p.stages, stage{config: c, optional: true, env: []string{"VERIF_EXTRA_CONFIG=1"}})
 	}
-	p.rule += " The same monitor also runs in the " + strings.Join(cfgs, " and ") + " build(s) of the same working tree, each compared with the model on its own."
+	p.rule += " The same monitor also runs in the " + strings.Join(cfgs, " and ") + " build(s) of the same working tree, each compared with the model on its own (in the thorough tier with 8 times the quick case count)."
 }
 
 func simple(rule string, min int64) *plan {
